@@ -2,13 +2,14 @@ import Pycoin.Model.Curve
 import Pycoin.Model.Hash
 import Pycoin.Model.ScriptStreamer
 import Pycoin.Model.Tx
+import Pycoin.Model.Der
+import Pycoin.Model.Sec
 import Pycoin.Gen.Sign
 /-!
 C05 — model of the transaction signer.
 
-* `pycoin/satoshi/der.py`: `encode_integer`, `encode_length`, `encode_sequence`, `sigencode_der`, `sigdecode_der_lax`
-  (only what the signer calls; the full DER/SEC models are C10's);
-* `pycoin/encoding/sec.py`: `public_pair_to_sec`, `sec_to_public_pair` (strict);
+* `pycoin/satoshi/der.py`: `sigdecode_der_lax` (the writer `sigencode_der` and `pycoin/encoding/sec.py` are C10's models
+  `Model/Der.lean`, `Model/Sec.lean`, wrapped here with the signer's error classes);
 * `pycoin/solve/some_solvers.py`: `_find_signatures`, `hash_lookup_solver`, `constant_equality_solver`, `signing_solver`;
 * `pycoin/coins/bitcoin/Solver.py`: `Solver.solve` (what `determine_constraints` + `solve_for_constraints` +
   `compile_push_data_list` produce for the standard templates) and `Solver.sign` (the frame);
@@ -51,36 +52,16 @@ def ofCurveErr : Curve.Err → Err
   | .assertion => .assertion | .noSuchPoint => .value | .value => .value | .type => .type
   | .overflow => .overflow | .outOfFuel => .assertion
 
-/-! ## DER (`pycoin/satoshi/der.py`) -/
+/-! ## DER (`pycoin/satoshi/der.py`): the writer is C10's model (`Model/Der.lean`); the lax reader is modelled here -/
 
-/-- number of bytes of `"%x" % n` padded to an even number of digits (`0` ↦ one byte) -/
-def byteLen (n : Nat) : Nat := Nat.log2 n / 8 + 1
+def ofDerErr : Der.Err → Err
+  | .unexpectedDER => .value | .typeError => .type | .valueError => .value | .assertionError => .assertion
 
-/-- `binascii.unhexlify` of the even-padded `"%x" % n` -/
-def beMin (n : Nat) : Bytes := beBytes n (byteLen n)
-
-/-- `encode_integer(r)`; `assert r >= 0`; `bytes([len])` needs `len ≤ 255` (`ValueError`) -/
-def encodeInteger (r : Int) : Except Err Bytes :=
-  if r < 0 then .error .assertion
-  else
-    let s := beMin r.toNat
-    let body := if (s.headD 0).toNat ≤ 0x7F then s else 0 :: s
-    if body.length > 255 then .error .value
-    else .ok (0x02 :: UInt8.ofNat body.length :: body)
-
-/-- `encode_length(l)` -/
-def encodeLength (l : Nat) : Bytes :=
-  if l < 0x80 then [UInt8.ofNat l]
-  else
-    let b := beMin l
-    UInt8.ofNat (0x80 ||| b.length) :: b
-
-/-- `sigencode_der(r, s)` -/
+/-- `sigencode_der(r, s)` (C10's `Der.sigencodeDer`) -/
 def sigencodeDer (r s : Int) : Except Err Bytes :=
-  match encodeInteger r, encodeInteger s with
-  | .ok a, .ok b => .ok (0x30 :: (encodeLength (a.length + b.length) ++ (a ++ b)))
-  | .error e, _ => .error e
-  | _, .error e => .error e
+  match Der.sigencodeDer r s with
+  | .ok b => .ok b
+  | .error e => .error (ofDerErr e)
 
 /-- leading zero bytes skipped, at most `k` of them: the `while lenbyte > 0 and sig[pos] == 0` loop -/
 def skipZeros : Nat → Bytes → Nat × Bytes
@@ -134,38 +115,23 @@ def parseSignatureBlob (blob : Bytes) : Option ((Nat × Nat) × Nat) :=
     | none => none
     | some rs => some (rs, last.toNat)
 
-/-! ## SEC (`pycoin/encoding/sec.py`) -/
+/-! ## SEC (`pycoin/encoding/sec.py`): C10's model (`Model/Sec.lean`) -/
 
-/-- `to_bytes_32(v)`: `int.to_bytes(32, "big")` raises `OverflowError` on negative or too large values -/
-def toBytes32 (v : Int) : Except Err Bytes :=
-  if v < 0 then .error .overflow
-  else match beBytes? v.toNat 32 with
-    | none => .error .overflow
-    | some b => .ok b
+def ofSecErr : Sec.Err → Err
+  | .overflowError => .overflow | .typeError => .type | .curve e => ofCurveErr e | _ => .value
 
-/-- `public_pair_to_sec(public_pair, compressed)` -/
+/-- `public_pair_to_sec(public_pair, compressed)` (C10's `Sec.publicPairToSec`) -/
 def publicPairToSec (x y : Int) (compressed : Bool) : Except Err Bytes :=
-  match toBytes32 x with
-  | .error e => .error e
-  | .ok xs =>
-    if compressed then .ok (UInt8.ofNat (2 + (fmod y 2).toNat) :: xs)
-    else match toBytes32 y with
-      | .error e => .error e
-      | .ok ys => .ok (4 :: (xs ++ ys))
+  match Sec.publicPairToSec x y compressed with
+  | .ok b => .ok b
+  | .error e => .error (ofSecErr e)
 
-/-- `sec_to_public_pair(sec, generator, strict=True)` for a generator with a 32-byte field; `none` = `EncodingError`
-(or the `NoSuchPointError` of `points_for_x`: both are `ValueError`s) -/
+/-- `sec_to_public_pair(sec, generator, strict=True)` as the signer uses it: any failure is an `EncodingError` /
+`NoSuchPointError`, both `ValueError`s (`none`) -/
 def secToPublicPair (c : CurveParams) (sec : Bytes) : Option Pt :=
-  let x : Int := beNat (slice sec 1 33)
-  if sec.length = 65 then
-    if sec.head? = some 4 then some (some (x, (beNat (slice sec 33 65) : Int))) else none
-  else if sec.length = 33 then
-    if sec.head? = some 2 ∨ sec.head? = some 3 then
-      match pointsForX c x with
-      | .error _ => none
-      | .ok (p0, p1) => some (if sec.head? = some 2 then p0 else p1)
-    else none
-  else none
+  match Sec.secToPublicPair c sec true with
+  | .ok P => some (some P)
+  | .error _ => none
 
 /-! ## parameters -/
 
@@ -407,7 +373,9 @@ structure SolveArgs where
   C : Crypto
   lookup : Lookup
   p2sh : Bytes → Option Bytes
-  digest : Digest
+  /-- `signature_for_hash_type_f` of the input: `sighash witness scriptCode hashType`, with `witness` = the BIP143
+  closure of `_make_witness_sighash_f`, else the closure of `_make_sighash_f`; the script code is `vm.script` -/
+  sighash : Bool → Bytes → Digest
   ht : Nat
   placeholder : Option Bytes
 
@@ -429,11 +397,13 @@ def solveWitness (a : SolveArgs) (existing : List Bytes) (program : Bytes) : Exc
       match classify ws with
       | none => .error .unsupported
       | some base =>
-        match solveBase a.C a.lookup a.digest existing a.ht a.placeholder base with
+        match solveBase a.C a.lookup (a.sighash true ws) existing a.ht a.placeholder base with
         | .error e => .error e
         | .ok items => .ok (items.filterMap id ++ [ws])
   else if program.length = 20 then
-    match solveBase a.C a.lookup a.digest existing a.ht a.placeholder (.p2pkh program) with
+    -- `_puzzle_script_for_len20_segwit`: DUP HASH160 <program> EQUALVERIFY CHECKSIG
+    match solveBase a.C a.lookup (a.sighash true ([0x76, 0xa9, 0x14] ++ program ++ [0x88, 0xac])) existing a.ht a.placeholder
+        (.p2pkh program) with
     | .error e => .error e
     | .ok items => .ok (items.filterMap id)
   else .error .unsupported
@@ -460,7 +430,7 @@ def solve (a : SolveArgs) (puzzle script : Bytes) (witness : List Bytes) : Excep
         match classify underlying with
         | none => .error .unsupported
         | some base =>
-          match solveBase a.C a.lookup a.digest existing a.ht a.placeholder base with
+          match solveBase a.C a.lookup (a.sighash false underlying) existing a.ht a.placeholder base with
           | .error e => .error e
           | .ok items =>
             match pushAll (items ++ [some underlying]) with
@@ -475,7 +445,7 @@ def solve (a : SolveArgs) (puzzle script : Bytes) (witness : List Bytes) : Excep
       match classify puzzle with
       | none => .error .unsupported
       | some base =>
-        match solveBase a.C a.lookup a.digest existing a.ht a.placeholder base with
+        match solveBase a.C a.lookup (a.sighash false puzzle) existing a.ht a.placeholder base with
         | .error e => .error e
         | .ok items =>
           match pushAll items with
@@ -495,8 +465,8 @@ structure SignArgs where
   fork : Bool
   lookup : Lookup
   p2sh : Bytes → Option Bytes
-  /-- digest of input `i` for a hash type -/
-  digest : Nat → Digest
+  /-- `signature_for_hash_type_f` of input `i`: `sighash i witness scriptCode hashType` (C04's model in the driver) -/
+  sighash : Nat → Bool → Bytes → Digest
   /-- input `i` passes `check_solution(flags=None)` as it stands -/
   valid : Nat → Bool
   ht : Option Nat
@@ -519,7 +489,7 @@ def signOne (a : SignArgs) (unspents : List (Option TxOut)) (ins : List TxIn) (i
     if a.valid idx then .ok ins
     else
       let puzzle := match unspents[idx]?.join with | some u => u.script | none => []
-      let sa : SolveArgs := { C := a.C, lookup := a.lookup, p2sh := a.p2sh, digest := a.digest idx,
+      let sa : SolveArgs := { C := a.C, lookup := a.lookup, p2sh := a.p2sh, sighash := a.sighash idx,
                               ht := effectiveHashType a.fork a.ht, placeholder := some Gen.Sign.defaultPlaceholder }
       match solve sa puzzle tin.script tin.witness with
       | .ok (sc, none) => .ok (ins.set idx { tin with script := sc })
